@@ -60,6 +60,10 @@ f('C14', 'manipulate-derivative-averaging', 'curve_factory.manipulate: scalar pa
 f('C14', 'lsq-flat-layout-reshape', 'surface/volume least_square_fit with the flat-matrix layout reshapes with the number of basis functions instead of evaluation points: ValueError when over-determined', False, {'call': 'sf.least_square_fit(x.reshape(-1,2),[b1,b2],u)'})
 f('C14', 'volume-loft-two-sections', 'volume_factory.loft with two surfaces calls surface_factory.edge_curves on surfaces: ValueError', False, {'call': 'vf.loft(Surface(), Surface()+[0,0,1])'})
 
+f('C06', 'reverse-periodic-flip-only', 'reverse() on a periodic direction only flips the control points; the required roll by k+1 is missing, so the evaluated map changes', False, {'call': 'Curve(BSplineBasis(2,[-1,0,1,2,3],0),[[0],[1]],raw=True).reverse()'})
+f('C06', 'swap-curve-returns-none', 'swap() on a curve returns None instead of the receiver', False, {'call': 'Curve().swap()'})
+f('C06', 'reparam-tiny-interval-absolute-knot-tolerance', 'reparam to an interval of width <= ~1e-9 breaks evaluation: parameters are snapped with the absolute knot_tolerance 1e-10', False, {'call': 'Curve().reparam((0, 2**-34))'})
+
 FIXED = []
 if __name__ == '__main__':
     p = os.path.join(os.path.dirname(os.path.dirname(os.path.abspath(__file__))), 'known_findings.json')
